@@ -24,6 +24,12 @@ def entries(t):
     E.append(('json-object-inner', 'JSON::parse_as_properties', 'string', JSONB, L, b'{"a":', b'}'))
     E.append(('json-property', 'JSONProperty::parse', 'string', JSONB, Lj, b'', b''))
     E.append(('base64-decode', 'Base64::decode', 'string', None, L, b'', b''))
+    # &str arguments are any valid UTF-8, not only ASCII: multi-byte characters for the parsers that walk `chars()`
+    E.append(('base64-decode-utf8', 'Base64::decode', 'utf8', None, (2, 3, 4) if q else (2, 3, 4, 5, 6), b'', b''))
+    E.append(('base64-decode-sequence-utf8', 'Base64::decode_sequence', 'utf8', None, (2, 3, 4) if q else (2, 3, 4, 5, 6), b'', b''))
+    E.append(('base64-decode-sequence', 'Base64::decode_sequence', 'string', None, L, b'', b''))
+    E.append(('base64-char-to-number', 'Base64::convert_base64_char_to_number', 'char', None, (0,), b'', b''))
+    E.append(('base64-number-to-char', 'Base64::convert_number_to_base64_char', 'u8', None, (0,), b'', b''))
     E.append(('header', 'Header::parse_header', 'string', None, L, b'', b''))
     E.append(('content-disposition', 'ContentDisposition::parse', 'string', None, L, b'', b''))
     E.append(('content-disposition-form', 'ContentDisposition::parse', 'string', None, L, b'form-data; ', b''))
@@ -53,9 +59,19 @@ def case(prog, params):
     kw = {'exact_len': n}
     if alpha is not None: kw['alphabet'] = alpha
     elif kind == 'string': kw['ascii_only'] = True
+    if kind == 'utf8': kw.pop('ascii_only', None)
     sym = SymStr.fresh('x', n, cons, **kw) if n else SymStr(())
     data = S(pre).concat(sym).concat(S(suf))
     args = [data]
+    if kind == 'utf8':
+        ex.allow_non_ascii = True
+        cons.append(zb(MODELS.utf8_valid(sym.flat())))
+    elif kind == 'char':
+        cv = z3.BitVec('ch', 32)
+        cons.append(z3.And(z3.ULE(cv, 0x10FFFF), z3.Or(z3.ULT(cv, 0xD800), z3.UGT(cv, 0xDFFF))))
+        args = [Int('char', cv)]; data = None
+    elif kind == 'u8':
+        cv = z3.BitVec('nb', 8); args = [Int('u8', cv)]; data = None
     if kind == 'bytes+boundary':
         bd = SymStr.fresh('bd', 2, cons, ascii_only=True); args = [data, bd]
     elif kind == 'cursor':
@@ -81,7 +97,7 @@ def case(prog, params):
         if kk[0] == 'panic':
             r, m = ex.check(o.pc)
             if r != 'sat': return
-            inp = model_bytes(m, data)
+            inp = model_bytes(m, data) if data is not None else (chr(model_int(m, args[0].v)).encode('utf-8') if kind == 'char' else bytes([model_int(m, args[0].v)]))
             w = {'entry': name, 'fn': fn, 'kind': kind, 'input': inp.hex()}
             if kind == 'bytes+boundary': w['boundary'] = model_bytes(m, args[1]).hex()
             site = _site(o)
